@@ -1201,7 +1201,7 @@ func (s *Entry) printLoggerName(pc *PrintCtx) {
 				pc.pcAppendStringKey("logger")
 				pc.pcAppendColon()
 				pc.pcAppendByte('"')
-				pc.pcAppendStringValue(s.name)
+				pc.appendEscapedJSONString(s.name)
 				pc.pcAppendByte('"')
 			} else {
 				pc.AddString("logger", s.name)
